@@ -124,6 +124,10 @@ func (pres *Presence) UnmarshalXML(d *xml.Decoder, start xml.StartElement) error
 					err = d.DecodeElement(&pres.Priority, &tt)
 				case "error":
 					err = d.DecodeElement(&pres.Error, &tt)
+				default:
+					// Unknown child: consume it entirely. Its descendants must not be mistaken for children of
+					// this stanza (a forwarded or carbon-copied stanza has a descendant with the stanza's own name)
+					err = d.Skip()
 				}
 				if err != nil {
 					return err
